@@ -14,7 +14,7 @@ import random
 
 # Typing imports
 from typing import Dict, Iterator, List, NamedTuple, Optional, Tuple, Union, overload
-from urllib.parse import parse_qsl, urlparse
+from urllib.parse import parse_qsl, urlsplit
 
 # Pycryptodome imports
 try:
@@ -214,6 +214,8 @@ def parse_raw_http(data: bytes) -> Union[HttpRequest, HttpResponse]:
 
     headers = {}
     for header in header_data.split(b"\r\n"):
+        if not header:
+            continue
         key, _, value = header.partition(b": ")
         headers[key] = value
 
@@ -232,11 +234,11 @@ def parse_raw_http(data: bytes) -> Union[HttpRequest, HttpResponse]:
         raise ValueError(f"Error in parsing request status line: {first_line!r}")
     method, uri, _version = parts
 
-    # sanitize uri bytes for `urlparse()` to avoid possible decode errors
-    uri = uri.decode("ascii", errors="ignore").encode()
-    result = urlparse(uri)
-    uri = result.path
-    params = dict(parse_qsl(result.query))
+    # sanitize uri bytes for `urlsplit()` to avoid possible decode errors
+    result = urlsplit(uri.decode("ascii", errors="ignore"))
+    uri = result.path.encode()
+    # percent-decoded parameter bytes are arbitrary, latin-1 maps them 1:1
+    params = {k.encode("latin-1"): v.encode("latin-1") for k, v in parse_qsl(result.query, encoding="latin-1")}
     return HttpRequest(method=method, body=body, headers=headers, uri=uri, params=params)
 
 
